@@ -12,6 +12,21 @@ from lib.evidence import Report
 from checks import algebra as alg
 
 
+def _iter_job(args):
+    cid, cfg = args
+    from harness import zp_runs
+    from pySDC.core.errors import ProblemError
+    try:
+        out = zp_runs.run(cfg)
+    except ProblemError:
+        return dict(singular=True)  # a diagonal solve is singular over Z_p for this instance
+    except Exception as e:  # noqa
+        from lib.errors import describe
+        return dict(error=describe(e, 300))
+    return dict(id=cid, mode='iter', kind=cfg['kind'], levels=cfg['levels'], transfers=cfg['transfers'], nsw=cfg['nsweeps'], K=cfg['maxiter'],
+                u_init=cfg['u_init'], probe=cfg['probe'], out=out)
+
+
 def run(tier, seed):
     rep = Report('C10', tier, seed)
     rep.assumptions = [
@@ -20,7 +35,9 @@ def run(tier, seed):
         'hypothesis H1: every row of the node restriction matrix sums to one (true for Lagrange interpolation matrices); TLC also '
         'exhibits the counterexample without H1 as a documented non-theorem',
         'node-to-node matrices are installed through a BaseTransfer sub-class (the float Lagrange matrices have no image in Z_p)',
-        'prolong_f and BaseTransfer_mass are not covered']
+        'one multilevel iteration: complete runs of the real controller (one step, 2-3 levels, maxiter = K, tolerance never met) compared '
+        'with the transcription MLIterate of the stage sequence; its affinity in the iterate is evaluated on every case',
+        'BaseTransfer_mass is not covered']
     rep.rule = ('cases = two-level instances (fine/coarse quadrature and preconditioner matrices, node and space transfer matrices, '
                 'operators, data); non-trivial = coarse sweep defined; a fifth of the random cases start from a fine collocation solution')
     rng = random.Random(seed)
@@ -88,6 +105,42 @@ def run(tier, seed):
                     rep.violation('model.' + res.violation, dict(kind='model', label=lab, tlc_error=res.error_text[:4000]))
                 elif not res.ok:
                     rep.machinery.append(f'MC {lab} did not complete: {res.raw[-300:]}')
+            # third clause: K multilevel iterations of the REAL controller (one step, 2 or 3 levels, arbitrary sweeps per level) equal
+            # the transcription of the stage sequence (IT_DOWN, IT_COARSE, IT_UP, IT_FINE), which is affine in the iterate
+            from harness import zp_runs
+            itcfgs = []
+            for k in range(160 if tier == 'quick' else 2400):
+                P = rng.choice([3, 5, 5])
+                itcfgs.append((len(itcfgs) + 1, zp_runs.iteration_config(rng, P)))
+            itout = pool.map(_iter_job, itcfgs, chunksize=4)
+            byP = {}
+            nskip = 0
+            for (cid, cfg), o in zip(itcfgs, itout):
+                if 'singular' in o:
+                    nskip += 1
+                    continue
+                if 'error' in o:
+                    rep.problem('iteration run failed: ' + o['error'], dict(kind='iteration', cfg=cfg), clause='iter.unexpected_library_error')
+                    continue
+                byP.setdefault(cfg['P'], []).append(o)
+            nit = 0
+            for P, cases in byP.items():
+                chunks = [cases[i::8] for i in range(8)]
+                res = pool.map(alg._tv_validate_job, [(os.path.join(scratch, f'it_{P}_{k}'), P, ch) for k, ch in enumerate(chunks) if ch], chunksize=1)
+                bycid = {c['id']: c for c in cases}
+                for verdicts, summ, raw in res:
+                    rep.states += summ['distinct']
+                    rep.transitions += summ['generated']
+                    if raw:
+                        rep.machinery.append('TraceSdcAlgebra (iteration cases) did not return all verdicts: ' + raw[-300:])
+                    for cid, viol in verdicts.items():
+                        nit += 1
+                        rep.traces += 1
+                        nontrivial += 1
+                        for clause in viol[:2]:
+                            rep.violation('alg.' + clause, dict(kind='iteration', P=P, clause=clause, all=viol, case=bycid[cid]))
+            rep.cov['multilevel_iteration_cases'] = nit
+            rep.cov['multilevel_iteration_cases_skipped_singular'] = nskip
             r = noh1.get()
             rep.add_tlc(r, 'MC non-theorem DownUpWithoutH1 (counterexample expected)')
             rep.cov['non_theorem_without_H1_refuted_by_TLC'] = (r.violation == 'DownUpWithoutH1')
